@@ -236,7 +236,7 @@ class Baton:
 # ---------------------------------------------------------------------------
 # request kinds
 
-KINDS = ['plain', 'body', 'raise', 'nf', 'crash', 'json404', 'form', 'hdrs', 'mutq', 'latin', 'badmp_json', 'signed', 'forged', 'stat_s', 'stat_n', 'rewrite', 'tenant', 'whoami', 'lazy', 'delc_opts', 'delc_plain', 'upload_ct', 'upload_bare']
+KINDS = ['plain', 'body', 'raise', 'nf', 'crash', 'json404', 'form', 'hdrs', 'mutq', 'latin', 'badmp_json', 'signed', 'forged', 'stat_s', 'stat_n', 'rewrite', 'tenant', 'whoami', 'lazy', 'delc_opts', 'delc_plain', 'upload_ct', 'upload_bare', 'account', 'about', 'mount', 'stream', 'chunked', 'badcl']
 
 
 class _Lazy:
@@ -331,6 +331,35 @@ def make_app(config=None, app=None):
             q['tag'].append('seen-by-' + name)
         p = rq.params
         return json.dumps([name, before, sorted(p.keys())])
+
+    # a route hook that annotates the request of a wildcard-free route; static handlers that take whatever keyword arguments arrive
+    def _account_hook(prefix):
+        rq.url_args['user'] = rq.query.get('q')
+    app.on_route('/account', _account_hook)
+
+    @app.route('/account')
+    def account(**kw):
+        return json.dumps(['account', sorted(kw.items())])
+
+    @app.route('/about')
+    def about(**kw):
+        return json.dumps(['about', sorted(kw.items()), sorted(rq.url_args.items())])
+
+    @app.route('/mount/<name>')
+    def mount(name):
+        return json.dumps([name, rq.script_name, rq.fullpath, rq.url])
+
+    @app.route('/stream/<name>')
+    def stream(name):
+        # a streamed body whose later chunks still look at the request and set nothing new
+        yield 'first:' + name + ';'
+        yield 'path=' + rq.path + ';who=' + str(rq.headers.get('X-Id')) + ';host=' + str(rq.headers.get('Host')) + ';'
+        yield 'q=' + json.dumps(sorted(rq.query.items()))
+
+    @app.route('/chunked/<name>', method='POST')
+    def chunked(name):
+        raw = rq.body.read()
+        return json.dumps([name, raw.decode('latin1'), sorted(rq.forms.items())])
 
     @app.route('/lazy/<name>')
     def lazy(name):
@@ -475,6 +504,27 @@ def environ_for(kind, name):
         env.update(PATH_INFO='/crashform/x', REQUEST_METHOD='POST', CONTENT_LENGTH=str(len(data)), CONTENT_TYPE='application/x-www-form-urlencoded',
                    QUERY_STRING='same=1', HTTP_HOST='same.example', HTTP_COOKIE='c=1')
         env['wsgi.input'] = io.BytesIO(data)
+    elif kind == 'account':
+        env['PATH_INFO'] = '/account'
+    elif kind == 'about':
+        env['PATH_INFO'] = '/about'
+    elif kind == 'mount':
+        env['PATH_INFO'] = '/mount/' + name
+        env['SCRIPT_NAME'] = '/shop-' + name.lower()
+    elif kind == 'stream':
+        env['PATH_INFO'] = '/stream/' + name
+    elif kind == 'chunked':
+        payload = ('k=' + name + '&data=' + 'z' * 37 + name).encode()
+        wire = b''
+        for i in range(0, len(payload), 11):
+            piece = payload[i:i + 11]
+            wire += ('%x' % len(piece)).encode() + b'\r\n' + piece + b'\r\n'
+        wire += b'0\r\n\r\n'
+        env.update(PATH_INFO='/chunked/' + name, REQUEST_METHOD='POST', HTTP_TRANSFER_ENCODING='chunked', CONTENT_TYPE='application/x-www-form-urlencoded')
+        env['wsgi.input'] = io.BytesIO(wire)
+    elif kind == 'badcl':
+        env.update(PATH_INFO='/body/' + name, REQUEST_METHOD='POST', CONTENT_LENGTH='5, 5')
+        env['wsgi.input'] = io.BytesIO(b'12345')
     elif kind in ('lazy', 'delc_opts', 'delc_plain'):
         env['PATH_INFO'] = '/%s/%s' % (kind, name)
     elif kind == 'tenant':
